@@ -154,6 +154,13 @@ CLAIMED["C16"] = (
     "formed request on a clean sibling connection that is not served, is rejected",
     "Model checking of the outcome rules plus trace validation of thousands of real server and client executions on malformed "
     "and random input (fault_enumeration over the named malformation classes, whole and bytewise).", "3 C16", "")
+CLAIMED["C18"] = (
+    "TLA+ spec specs/http/Wsgi.tla (request sequences x application behaviours -> framing, body, close decision per response; "
+    "invariants SelfDelimiting/InOrder/BodyWithinCL/CloseIffNotPersistent/NothingAfterClose): TLC exhaustive MC; every behaviour "
+    "executed on a real http.Server with a scripted WSGI application over scripted sockets (pipelined and one at a time, list and "
+    "generator bodies), the received bytes cut into responses by http.client.HTTPResponse and compared with the model (spec->code)",
+    "Exhaustive model checking of the framing rules for all request/application sequences in the bounds plus conformance of the "
+    "real server on every enumerated behaviour, judged through an independent HTTP parser.", "3 C18", "")
 NA = {
  "C28": "pure value-fidelity of json/cbor2/msgpack + dataclass reflection: no state/transition structure for a TLA+ model to decide (DESIGN.md section 4)",
 }
